@@ -154,6 +154,31 @@ def build_registry():
             reg[f'{kind}.{method}'] = mix(kind, method)
     reg['cacgmm.log_likelihood'] = mix('cacgmm', 'log_likelihood')
 
+    def continued(rng):
+        # a fit continued from a returned model, with the options of the continuation differing from those of the first fit
+        # (another floor / norm): the caller's model object is an argument like any other
+        lead = () if rng.uniform() < 0.5 else (2,)
+        y = _cdata(rng, lead, 7 if rng.uniform() < 0.5 else 14, 4)
+        ini = gen.dirichlet_init(rng, lead, 2, y.shape[-2], alpha=1.0)
+        first = d.CACGMMTrainer().fit(y, initialization=ini, iterations=2, covariance_norm=['eigenvalue', 'trace', False][int(rng.integers(3))])
+        kw = dict(initialization=first, iterations=2, eigenvalue_floor=float(rng.choice([1e-10, 1e-3, 0.1])), covariance_norm=['eigenvalue', 'trace', False][int(rng.integers(3))])
+        return d.CACGMMTrainer().fit, (y,), kw, {}
+    reg['cacgmm.fit[continued from a model]'] = continued
+
+    def hard_start(kind):
+        def maker(rng):
+            lead = () if rng.uniform() < 0.5 else (2,)
+            y = _cdata(rng, lead, 12, 3)
+            ini, _ = gen.onehot_init(rng, lead, 2, 12)
+            tr = models.trainer(kind)
+            kw = dict(initialization=ini, iterations=2)
+            if kind in ('cbmm', 'cacgmm'):
+                kw['affiliation_eps'] = float(rng.choice([0.0, 1e-10, 1e-3, 0.05]))
+            return getattr(tr, 'fit' if rng.uniform() < 0.5 else 'fit_predict'), (y,), kw, {}
+        return maker
+    for kind in ('cacgmm', 'cwmm', 'cbmm'):
+        reg[f'{kind}.fit[hard start, clipping option]'] = hard_start(kind)
+
     def dist_fit(fam):
         def maker(rng):
             lead = () if rng.uniform() < 0.5 else (2,)
@@ -214,6 +239,15 @@ def build_registry():
                 kw = {('ref_channel' if 'souden' in name else 'reference_channel'): 1}
             return getattr(bf, name), (Px, Pn), kw, {}
         reg[name] = mk
+    def wmwf_fd(rng):
+        # frequency dependent distortion weight; target PSDs with exact zeros (a muted first microphone in some bins, a rank-one target
+        # whose steering vector vanishes at a sensor)
+        Px, Pn = _psds(rng, 4, 3)
+        if rng.uniform() < 0.7:
+            a = gen.cnormal(rng, (4, 3)); a[rng.uniform(size=4) < 0.5, 0] = 0
+            Px = np.einsum('fa,fb->fab', a, a.conj())
+        return bf.get_wmwf_vector, (Px, Pn), dict(distortion_weight='frequency_dependent', reference_channel=int(rng.integers(0, 3))), {}
+    reg['get_wmwf_vector[frequency_dependent]'] = wmwf_fd
     reg['get_mvdr_vector'] = lambda rng: (bf.get_mvdr_vector, (gen.cnormal(rng, (2, 4, 3)), _psds(rng, 4, 3)[1]), {}, {})
     reg['get_pca_vector'] = lambda rng: (bf.get_pca_vector, (_psds(rng, 4, 3)[0],), dict(scaling=[None, 'trace', 'eigenvalue'][int(rng.integers(3))]), {})
     reg['blind_analytic_normalization'] = lambda rng: (bf.blind_analytic_normalization, (gen.cnormal(rng, (4, 3)), _psds(rng, 4, 3)[1]), {}, {})
